@@ -32,3 +32,31 @@ def doc_level(ctx):
     arms = '\n'.join('        BinaryExprType::%s => %d,' % (v, levels[v]) for v in sorted(levels))
     return ('// generated from docsite/site/content/reference/expressions.md (the published table)\n'
             'pub open spec fn doc_level(op: BinaryExprType) -> u32 {\n    match op {\n%s\n    }\n}\n' % arms)
+
+
+def reserved_words(ctx):
+    """spec fns for the reserved-word check: `src_reserved` from the literal list in vm.rs::reserved_words
+    (what the BTreeSet really contains) and `doc_reserved` from the reference's list."""
+    from assemble import Undecided
+    try:
+        vm = open(os.path.join(REPO, 'src/build/opcode/vm.rs')).read()
+        doc = open(os.path.join(REPO, 'docsite/site/content/reference/_index.md')).read()
+    except OSError as e:
+        raise Undecided('reserved word sources unreadable: %s' % e)
+    m = re.search(r'fn reserved_words\(\).*?BTreeSet::from\(\[(.*?)\]\)', vm, re.S)
+    if not m:
+        raise Undecided('reserved_words() literal list not found in vm.rs')
+    src_words = re.findall(r'"([^"]+)"', m.group(1))
+    m2 = re.search(r'reserved in UCG.*?\n((?:\s*\n|\* .*\n)+)', doc)
+    if not m2:
+        raise Undecided('reserved word list not found in the reference')
+    doc_words = re.findall(r'^\* (\S+)\s*$', m2.group(1), re.M)
+    if len(src_words) < 5 or len(doc_words) < 5:
+        raise Undecided('reserved word lists implausibly short')
+
+    def disj(ws):
+        return ' || '.join('s == "%s"@' % w for w in ws)
+    return ('// generated: literal list of vm.rs::reserved_words()\n'
+            'pub open spec fn src_reserved(s: Seq<char>) -> bool { %s }\n'
+            '// generated: reserved words published in docsite/site/content/reference/_index.md\n'
+            'pub open spec fn doc_reserved(s: Seq<char>) -> bool { %s }\n' % (disj(src_words), disj(doc_words)))
